@@ -89,7 +89,7 @@ Record cmdmon := mkCM {
 (* w_open_fin / w_open_fatal: the most recently announced sequence has already finalized / failed fatally, so a command
    starting now may still join it while it winds up *)
 Record waitmon := mkWM { w_fin : Z; w_fatal : Z; w_shut : bool; w_open_fin : bool; w_open_fatal : bool; w_cmds : list cmdmon;
-                         w_precancel : list Z   (* contexts that ended before their command started *) }.
+                         w_precancel : list Z   (* commands whose context ended before they started *) }.
 Definition waitmon0 : waitmon := mkWM 0 0 false false false [] [].
 Definition base_fin (m : waitmon) : Z := if w_open_fin m then w_fin m - 1 else w_fin m.
 Definition base_fatal (m : waitmon) : Z := if w_open_fatal m then w_fatal m - 1 else w_fatal m.
@@ -130,14 +130,13 @@ Definition waitmon_step (m : waitmon) (e : cev) : option waitmon :=
       end
   | EvCancel c =>
       match kfind c (w_cmds m) with
-      | None => Some (mkWM (w_fin m) (w_fatal m) (w_shut m) (w_open_fin m) (w_open_fatal m) (w_cmds m) (c :: w_precancel m))
-      | Some _ =>
-      Some (wm_cmds m (kupdate c (fun k => mkCM (k_id k) (k_force k) (k_execs k) (k_last k) (k_need_fin k) (k_notify_due k) true
+      | Some _ => Some (wm_cmds m (kupdate c (fun k => mkCM (k_id k) (k_force k) (k_execs k) (k_last k) (k_need_fin k) (k_notify_due k) true
                                                              (k_start_fin k) (k_start_fatal k) (k_returned k)) (w_cmds m)))
+      | None => Some (mkWM (w_fin m) (w_fatal m) (w_shut m) (w_open_fin m) (w_open_fatal m) (w_cmds m) (c :: w_precancel m))
       end
   | EvWaiting c _ false =>
-      (* joined a sequence that was already running: if that one has already finalized, the command is released by it
-         without a new Finalize *)
+      (* the command joined a sequence that was already running: if that sequence has already finalized (it is winding up),
+         its success releases the command without another Finalize *)
       if w_open_fin m
       then Some (wm_cmds m (kupdate c (fun k => mkCM (k_id k) (k_force k) (k_execs k) (k_last k) None (k_notify_due k) (k_cancelled k)
                                                      (k_start_fin k) (k_start_fatal k) (k_returned k)) (w_cmds m)))
@@ -213,8 +212,10 @@ Definition delaymon_step (m : delaymon) (e : cev) : option delaymon :=
   | EvDelayDone =>
       match dm_t m with
       | TmReleased => Some (mkDM TmIdle (dm_must_fire m) (dm_seq_open m) (dm_unannounced m) false (dm_may m))
-      | TmStarted => if dm_must_fire m || negb (match dm_may m with [] => true | _ => false end)
-                     then Some (mkDM TmIdle (dm_must_fire m) (dm_seq_open m) (dm_unannounced m) false (dm_may m)) else None
+      | TmStarted =>
+          (* the permission to end the delay early comes from a fire-now marker seen (EvFireNow), the obligation from EvWaiting *)
+          if dm_must_fire m || negb (match dm_may m with [] => true | _ => false end)
+          then Some (mkDM TmIdle (dm_must_fire m) (dm_seq_open m) (dm_unannounced m) false (dm_may m)) else None
       | TmIdle => None
       end
   | EvDialBegin => match dm_t m with TmIdle => Some m | _ => None end
